@@ -1229,6 +1229,11 @@ void ComputeConstraintImpulsesRangeSpaceSparse (
   SolveConstrainedSystemRangeSpaceSparse (model, CS.H, CS.G, CS.H * QDotMinus
                                           , CS.v_plus, QDotPlus, CS.impulse, CS.K, CS.a, CS.linear_solver);
 
+  // The solver returns lambda with H qdot+ = H qdot- + G^T lambda; the impulse
+  // has the sign used by ComputeConstraintImpulsesDirect:
+  // H (qdot+ - qdot-) + G^T impulse = 0
+  CS.impulse *= -1.;
+
 }
 
 //==============================================================================
@@ -1260,6 +1265,10 @@ void ComputeConstraintImpulsesNullSpace (
   SolveConstrainedSystemNullSpace (CS.H, CS.G, CS.H * QDotMinus, CS.v_plus
                                    , QDotPlus, CS.impulse, CS.Y, CS.Z, CS.qddot_y, CS.qddot_z
                                    , CS.linear_solver);
+
+  // same sign convention as ComputeConstraintImpulsesDirect:
+  // H (qdot+ - qdot-) + G^T impulse = 0
+  CS.impulse *= -1.;
 }
 #endif
 
